@@ -80,6 +80,25 @@ struct LabelCodec<Tag> {
     }
 };
 
+// an empty class with operator==: a "tag" label.  Every value equals every other, so the alphabet has one element;
+// unlike NoLabel it is a real label type (getEdgeLabel on an absent edge must throw).
+struct EmptyTag {
+    bool operator==(const EmptyTag &) const { return true; }
+};
+template <>
+struct LabelCodec<EmptyTag> {
+    static const char *name() { return "empty"; }
+    static EmptyTag mk(int) { return EmptyTag(); }
+};
+template <class L>
+struct SingleValued {
+    static constexpr bool value = false;
+};
+template <>
+struct SingleValued<EmptyTag> {
+    static constexpr bool value = true;
+};
+
 // reverse lookup, -1 when the value is not in the alphabet
 template <class L>
 int labelIndex(const L &v) {
